@@ -5,8 +5,8 @@ package main
 // activation pass from the sources; sinks are reported where an active label reaches them.
 
 import (
-	"go/constant"
 	"fmt"
+	"go/constant"
 	"go/token"
 	"go/types"
 	"sort"
